@@ -566,6 +566,7 @@ pub fn map_op<const N: usize>(cx: &mut Cx, m: &mut MapN<N>, op: &MapOp) -> Strin
         #[cfg(not(feature = "serde"))]
         MapOp::SerdeZst(_) => "[unsupported]".into(),
         MapOp::Shapes => shapes::<N>(),
+        MapOp::Sweep(fam, seed) => esc(&crate::sweep::run::<N>(fam, *seed)),
         MapOp::Defaults => {
             let d: MapN<N> = mm(Map::default);
             let mut out = vec![format!("{}", mm(|| d.len())), format!("{}", mm(|| d.capacity()))];
